@@ -1,6 +1,7 @@
 import NixModel.Lemmas.C04Hist
 import NixModel.Lemmas.C04Shape
 import NixModel.Lemmas.StoreWF
+import NixModel.Store.C04Ext
 
 /-!
 # C04 — deleting an entity removes it, what it owns and every link to it — nothing else
@@ -611,5 +612,97 @@ example : ((openCont demo [.name "data", .name "blk"] "data_arrays").map fun c =
     (Nix.Store.DelShape.runDel Nix.Store.DelShape.Gen.h5Params
       (Nix.Store.DelShape.Gen.delitemOf (Nix.Store.DelShape.classOf c.info.flavour)) demo c (.str "a")).toOption.isSome)
     = some true := by decide +kernel
+
+/-! ## histories with data frames and dimension links (`Store/C04Ext`: `Op4`)
+
+The theorems of the first sections hold for every graph; spelled out for the larger operation
+language: data frames (linked from `Group.data_frames`, feature `data`, `metadata` owners) and range
+dimensions whose ticks come from a linked array / frame (one more hard link to the target, named by
+its id, from `array/dimensions/<n>/link`). -/
+
+/-- **one `del owner.cname[key]` on any file**: refused and nothing changed, or no link anywhere
+targets an object carrying the entity's id and the entity is unreachable -/
+theorem delete_step_gone (g : Graph) (owner : Path) (cname : String) (key : KeyArg)
+    (c : Cont) (kk : Key) (k : Nat) (i : String)
+    (hc : openCont g owner cname = some c) (hkk : resolveKeyArg g key = some kk)
+    (hown : isOwning c.info.flavour = true) (ht : delTarget g c kk = .ok k) (hi : g.entityId k = some i) :
+    step g (.del owner cname key) = g ∨
+      ((∀ (p : Nat) (l : String × Nat), l ∈ (step g (.del owner cname key)).links p →
+          (step g (.del owner cname key)).entityId l.2 ≠ some i) ∧
+       (k ≠ 0 → ¬ Reach (step g (.del owner cname key)) k)) := by
+  have hstep : step g (.del owner cname key) = match contDel g c kk with | .ok x => x | .error _ => g := by
+    unfold step apply
+    simp only [hc, hkk]
+    cases contDel g c kk <;> rfl
+  cases hdel : contDel g c kk with
+  | error e => left; rw [hstep, hdel]
+  | ok x =>
+    right
+    have hx : step g (.del owner cname key) = x := by rw [hstep, hdel]
+    rw [hx]
+    have hin := delete_ids_self g c k i hi
+    refine ⟨(delete_gone g x c kk k hown ht hdel k i hi hin).2.2.2, ?_⟩
+    intro hk0
+    apply delete_owned_unreachable g x c kk k hown ht hdel k
+    intro ks hp
+    cases hp with
+    | nil => exact absurd rfl hk0
+    | cons name hl hrest =>
+      refine ⟨k, path_end_mem (.cons name hl hrest) (by simp), ?_⟩
+      unfold doomed; rw [hi]; simpa using hin
+
+/-- the same after every history of the larger language (frames, dimension links) -/
+theorem history4_delete (ops : List Op4) (owner : Path) (cname : String) (key : KeyArg)
+    (c : Cont) (kk : Key) (k : Nat) (i : String) :
+    let g := run4 init ops
+    let g' := step4 g (.base (.del owner cname key))
+    openCont g owner cname = some c → resolveKeyArg g key = some kk →
+    isOwning c.info.flavour = true → delTarget g c kk = .ok k → g.entityId k = some i →
+    g' = g ∨
+      ((∀ (p : Nat) (l : String × Nat), l ∈ g'.links p → g'.entityId l.2 ≠ some i) ∧
+       (k ≠ 0 → ¬ Reach g' k)) := by
+  intro g g' hc hkk hown ht hi
+  exact delete_step_gone g owner cname key c kk k i hc hkk hown ht hi
+
+/-- non-vacuity: array `x` with two range dimensions, linked to array `a` and to frame `f`; `f`
+also in a group and as feature data; then `a` and `f` are deleted -/
+def demo4Ops : List Op4 :=
+  [.base (.createBlock "b" "t"),
+   .base (.createIn [.name "data", .name "b"] "data_array" "a" "t" none),
+   .base (.createIn [.name "data", .name "b"] "data_array" "x" "t" none),
+   .createFrame [.name "data", .name "b"] "f" "t",
+   .base (.createIn [.name "data", .name "b"] "group" "g" "t" none),
+   .base (.createIn [.name "data", .name "b"] "tag" "tg" "t" none),
+   .base (.append [.name "data", .name "b", .name "groups", .name "g"] "data_frames"
+     (.obj [.name "data", .name "b", .name "data_frames", .name "f"])),
+   .base (.createFeature [.name "data", .name "b", .name "tags", .name "tg"]
+     (some [.name "data", .name "b", .name "data_frames", .name "f"]) "untagged"),
+   .dimLink [.name "data", .name "b", .name "data_arrays", .name "x"] [.name "data", .name "b", .name "data_arrays", .name "a"],
+   .dimLink [.name "data", .name "b", .name "data_arrays", .name "x"] [.name "data", .name "b", .name "data_frames", .name "f"]]
+
+def demo4 : Graph := run4 init demo4Ops
+def demo4After : Graph :=
+  run4 demo4 [.base (.del [.name "data", .name "b"] "data_arrays" (.str "a")),
+              .base (.del [.name "data", .name "b"] "data_frames" (.str "f"))]
+
+def xDimLinks (g : Graph) (n : Nat) : Option (List String) :=
+  ((resolve g rootLoc [.name "data", .name "b", .name "data_arrays", .name "x"]).bind fun x =>
+    dimLinkGroup g x.key n).map fun lk => (g.links lk).map (·.1)
+
+/-- before: both descriptors link their target (by its id), the group lists the frame, the feature has data -/
+example : (xDimLinks demo4 1, xDimLinks demo4 2) = (some ["id:1"], some ["id:3"]) := by decide +kernel
+example : ((resolve demo4 rootLoc [.name "data", .name "b", .name "groups", .name "g", .name "data_frames"]).map
+    fun l => (demo4.links l.key).length) = some 1 := by decide +kernel
+/-- after: both `link` groups are empty, the group's frame list is gone, the feature's data link is gone,
+`x` is still there -/
+example : (xDimLinks demo4After 1, xDimLinks demo4After 2) = (some [], some []) := by decide +kernel
+example : ((resolve demo4After rootLoc [.name "data", .name "b", .name "groups", .name "g", .name "data_frames"]).map
+    fun l => (demo4After.links l.key).length) = some 0 := by decide +kernel
+example : (resolve demo4After rootLoc [.name "data", .name "b", .name "tags", .name "tg", .name "features", .idx 0,
+    .name "data"]).isSome = false := by decide +kernel
+example : (resolve demo4 rootLoc [.name "data", .name "b", .name "tags", .name "tg", .name "features", .idx 0,
+    .name "data"]).isSome = true := by decide +kernel
+example : (resolve demo4After rootLoc [.name "data", .name "b", .name "data_arrays", .name "x"]).isSome = true := by
+  decide +kernel
 
 end Nix.C04
